@@ -50,7 +50,9 @@ def sigCandidate (key : Nat) (e : Env) (so : Env) : Option Env :=
     | _ => none
   else
     match extractSignature so with
-    | some s => if isSignatureFromKey V e s key then some so else none
+    -- only the signature itself was verified: assertions attached to an unwrapped signature
+    -- object are covered by nothing, so the bare signature is what is handed back
+    | some s => if isSignatureFromKey V e s key then some (newLeaf h s) else none
     | none => none
 
 /-- `has_some_signature_from_key_returning_metadata` -/
